@@ -34,8 +34,10 @@ deriving DecidableEq, Repr
 structure Target where
   label    : Label
   deps     : List Label
-  /-- resolved inputs -/
+  /-- resolved inputs: literal inputs as written, and the files matched by glob patterns -/
   inputs   : List Bytes
+  /-- the input patterns that went through glob resolution (`UnresolvedInputs` containing one of `*?[{`), as written -/
+  globs    : List Bytes
   /-- `AllOutputs()`: declared outputs, then the bin output if set -/
   outs     : List Out
   /-- `HasTag("testonly")` -/
@@ -88,9 +90,11 @@ structure Cfg where
   checkDirs : Bool
   /-- the directory output "." (workspace root) contains every relative path -/
   dotRoot   : Bool
+  /-- input patterns that went through glob resolution are checked in their unresolved form too -/
+  checkGlobs : Bool
 
-def Cfg.current : Cfg := ⟨true, true, true⟩
-def Cfg.old : Cfg := ⟨false, false, false⟩
+def Cfg.current : Cfg := ⟨true, true, true, true⟩
+def Cfg.old : Cfg := ⟨false, false, false, false⟩
 
 /-! ### BuildNodeMapFromPackages -/
 
@@ -346,9 +350,13 @@ def isTestLabel (l : Label) : Bool := testSuffix.reverse.isPrefixOf l.name.rever
 
 def Target.isTest (t : Target) : Bool := isTestLabel t.label
 
+/-- `inputsToCheck`: the resolved inputs, then the glob patterns in their unresolved form (a pattern like `../*.txt`
+    matches nothing inside the package and would otherwise vanish) -/
+def Target.checkedInputs (t : Target) : List Bytes := t.inputs ++ t.globs
+
 /-- `checkInputPathsRelative` -/
-def inputErrors (t : Target) : List Kind :=
-  t.inputs.filterMap fun i =>
+def inputErrors (cfg : Cfg) (t : Target) : List Kind :=
+  (if cfg.checkGlobs then t.checkedInputs else t.inputs).filterMap fun i =>
     if isAbs i then some Kind.inputEscape
     else if triesToEscape i then some Kind.inputEscape
     else none
@@ -385,7 +393,7 @@ def depErrors (ns : List Node) (t : Target) : List Kind :=
     | some u => if badDep t u then some Kind.testDep else none
 
 def targetErrors (cfg : Cfg) (ws : Bytes) (t : Target) : List Kind :=
-  inputErrors t ++ outputErrors cfg ws t ++
+  inputErrors cfg t ++ outputErrors cfg ws t ++
     (if t.isTest && !t.hasCmd then [Kind.testNoCommand] else [])
 
 /-- `CheckTargetConstraints(logger, nodeMap)`: the list of errors (as kinds) -/
